@@ -230,6 +230,14 @@ pub axiom fn axiom_lossy_utf8(s: Seq<char>)
 pub axiom fn axiom_lossy_len(b: Seq<u8>)
     ensures #[trigger] utf8(lossy(b)).len() <= 3 * b.len();
 
+/// A-utf8-3: the empty string is the empty byte string, both ways.
+pub axiom fn axiom_utf8_empty()
+    ensures utf8(Seq::<char>::empty()) == Seq::<u8>::empty(), lossy(Seq::<u8>::empty()) == Seq::<char>::empty();
+
+/// A-utf8-4: only the empty string encodes to zero bytes.
+pub axiom fn axiom_utf8_nonempty(s: Seq<char>)
+    ensures s.len() > 0 ==> #[trigger] utf8(s).len() > 0;
+
 pub uninterp spec fn cow_owned<'a, B: ?Sized + ToOwned>(c: std::borrow::Cow<'a, B>) -> <B as ToOwned>::Owned;
 
 pub assume_specification[ String::from_utf8_lossy ](v: &[u8]) -> (r: std::borrow::Cow<'_, str>)
